@@ -310,7 +310,10 @@ func replacementImplRTL(data *syntax.ReplacerData, al *[]string, m *Match) {
 	l := *al
 	buf := &bytes.Buffer{}
 
-	for _, r := range data.Rules {
+	// the caller emits the list back to front, so the pieces of one
+	// replacement have to be appended last rule first
+	for ri := len(data.Rules) - 1; ri >= 0; ri-- {
+		r := data.Rules[ri]
 		buf.Reset()
 		if r >= 0 { // string lookup
 			l = append(l, data.Strings[r])
